@@ -13,7 +13,7 @@ import (
 func init() { register("C13", checkC13) }
 
 func checkC13(r *Run) {
-	r.Explain = "Decides the clauses of C13 that are shape: GATE events rejected by the level gate never reach a sampler and DisableSampling(true) bypasses it (path table of (*Logger).should); BASIC the admit predicate of BasicSampler.Sample is extracted symbolically: N==0 → false, N==1 → true, otherwise (c mod N) == 1 with c the value returned by atomic.AddUint32(&s.counter, 1) — with a counter that only this fetch-add touches (A14) the k-th call sees c = k, so exactly the calls 1, N+1, 2N+1, … are admitted: ceil(k/N) of any k, the first included, however calls interleave; BURST BurstSampler.Sample admits under Burst>0 && Period>0 && inc()<=Burst, otherwise hands over to NextSampler.Sample(lvl) and rejects only when it is nil; inc() opens a window exactly when now >= resetAt (now = TimestampFunc().UnixNano(), resetAt loaded atomically), sets the count to 1 and the new end to now+Period, and otherwise fetch-adds the count; LEVEL LevelSampler pairs each level constant with its own sampler field, returns its answer, admits levels without one; A14 the counters, the window end, the global level and the sampling switch are accessed only through sync/atomic. BASIC also: exactly one atomic operation on the admitting path; GATE disabled-never-sampled: an exported entry point that passes a caller-chosen level to a sampler does so only under a test that excludes Disabled (the largest level, which the gate's comparisons never reject); GATE one-event-per-call: the self-finalising entry points create at most one event (one sampler decision) per call."
+	r.Explain = "Decides the clauses of C13 that are shape: GATE events rejected by the level gate never reach a sampler and DisableSampling(true) bypasses it (path table of (*Logger).should); BASIC the admit predicate of BasicSampler.Sample is extracted symbolically: N==0 → false, N==1 → true, otherwise (c mod N) == 1 with c the value returned by atomic.AddUint32(&s.counter, 1) — with a counter that only this fetch-add touches (A14) the k-th call sees c = k, so exactly the calls 1, N+1, 2N+1, … are admitted: ceil(k/N) of any k, the first included, however calls interleave; BURST BurstSampler.Sample admits under Burst>0 && Period>0 && inc()<=Burst, otherwise hands over to NextSampler.Sample(lvl) and rejects only when it is nil; inc() opens a window exactly when now >= resetAt (now = TimestampFunc().UnixNano(), resetAt loaded atomically), sets the count to 1 and the new end to now+Period, and otherwise fetch-adds the count; LEVEL LevelSampler pairs each level constant with its own sampler field, returns its answer, admits levels without one; A14 the counters, the window end, the global level and the sampling switch are accessed only through sync/atomic. BASIC also: exactly one atomic operation on the admitting path; GATE disabled-never-sampled: an exported entry point that passes a caller-chosen level to a sampler does so only under a test that excludes Disabled (the largest level, which the gate's comparisons never reject); GATE one-event-per-call: the self-finalising entry points create at most one event (one sampler decision) per call. GATE decided-once: nothing reachable from a method of *Event reads the global level again — an event the sampler admitted is not dropped later because the global level moved between creation and Msg."
 	r.NotDec = "BurstSampler under concurrent callers racing on a window boundary, counter wrap-around after 2^32 calls, RandomSampler's distribution: not decided. The window semantics over arbitrary (non-monotonic) clock histories is decided only as far as the extracted per-call transition above determines it."
 	r.Assume = []string{"sync/atomic fetch-add returns distinct consecutive values", "user samplers behind NextSampler are outside the claim"}
 	p := r.Use("J")
@@ -28,6 +28,7 @@ func checkC13(r *Run) {
 	ruleA14(r, p, "A14", map[string]bool{"": true}, []string{"BasicSampler.counter", "BurstSampler.counter", "BurstSampler.resetAt", "@SetGlobalLevel|GlobalLevel", "@DisableSampling|samplingDisabled"})
 	ruleOneEventPerCall(r, p)
 	ruleDisabledNeverSampled(r, p)
+	ruleEventPathIgnoresGlobalLevel(r, p, "GATE")
 	r.Floor("GATE", 8)
 	r.Floor("SWITCH", 2)
 	r.Floor("BASIC", 4)
